@@ -128,7 +128,7 @@ def add_dispersity(info, pars, rng, dim, nmax=2):
     """Relative dispersity on up to nmax size parameters (+ angular jitter in 2-D)."""
     P = info.parameters
     cands = [p for p in kernel_call_parameters(info)
-             if p.polydisperse and p.type == "volume" and p.name in P.pd_1d and not p.is_control]
+             if p.polydisperse and p.type == "volume" and not p.is_control]
     rng.shuffle(cands)
     for p in cands[:nmax]:
         t, w, n, ns = rng.choice(PD_CHOICES)
